@@ -1084,7 +1084,18 @@ func backSlice(v ssa.Value, atoms *sliceAtoms, seen map[ssa.Value]bool, depth in
 					idx = i
 				}
 			}
-			if sites := curWorld.callSitesOfNew(x.Parent()); idx >= 0 && len(sites) > 0 {
+			if i := sliceCtxIndex(x.Parent()); idx >= 0 && i >= 0 {
+				// reached through a particular call: that call's argument, in its caller's context
+				saved := sliceCtx
+				fr := saved[i]
+				sliceCtx = saved[:i]
+				if args := fr.call.Common().Args; idx < len(args) {
+					backSlice(args[idx], atoms, fr.outerSeen, depth+1)
+				}
+				sliceCtx = saved
+				return
+			}
+			if sites := curWorld.ssaSitesForHost(curWorld.callSitesOfNew(x.Parent())); idx >= 0 && len(sites) > 0 {
 				for _, c := range sites {
 					if args := c.Common().Args; idx < len(args) {
 						backSlice(args[idx], atoms, seen, depth+1)
@@ -1100,7 +1111,7 @@ func backSlice(v ssa.Value, atoms *sliceAtoms, seen map[ssa.Value]bool, depth in
 	case *ssa.Extract:
 		if call, ok := x.Tuple.(*ssa.Call); ok && curWorld != nil {
 			if callee := curWorld.newCallee(call); callee != nil {
-				sliceResults(callee, x.Index, atoms, seen, depth)
+				sliceResultsVia(call, callee, x.Index, atoms, seen, depth)
 				return
 			}
 		}
@@ -1132,7 +1143,7 @@ func backSlice(v ssa.Value, atoms *sliceAtoms, seen map[ssa.Value]bool, depth in
 			if callee := curWorld.newCallee(x); callee != nil {
 				// a new function: looked through (its results, with parameters bound to the
 				// arguments of its call sites), not recorded as a call
-				sliceResults(callee, -1, atoms, seen, depth)
+				sliceResultsVia(x, callee, -1, atoms, seen, depth)
 				return
 			}
 		}
@@ -1165,6 +1176,54 @@ func backSlice(v ssa.Value, atoms *sliceAtoms, seen map[ssa.Value]bool, depth in
 			}
 		}
 	}
+}
+
+// Context of a slice: the calls of new functions it descended through. While the results of a
+// new helper are followed from one call, its parameters stand for that call's arguments - a
+// helper called four times with four different fields is four different computations.
+type sliceFrame struct {
+	call      ssa.CallInstruction
+	callee    *ssa.Function
+	outerSeen map[ssa.Value]bool
+}
+
+var sliceCtx []sliceFrame
+
+func sliceCtxIndex(fn *ssa.Function) int {
+	for i := len(sliceCtx) - 1; i >= 0; i-- {
+		if sliceCtx[i].callee == fn {
+			return i
+		}
+	}
+	return -1
+}
+
+func sliceResultsVia(call ssa.CallInstruction, callee *ssa.Function, idx int, atoms *sliceAtoms, seen map[ssa.Value]bool, depth int) {
+	if sliceCtxIndex(callee) >= 0 || len(sliceCtx) > 8 {
+		sliceResults(callee, idx, atoms, seen, depth) // recursion: no further context
+		return
+	}
+	sliceCtx = append(sliceCtx, sliceFrame{call, callee, seen})
+	sliceResults(callee, idx, atoms, map[ssa.Value]bool{}, depth)
+	sliceCtx = sliceCtx[:len(sliceCtx)-1]
+}
+
+// ssaSitesForHost: the call sites in the current host's region (all, without a host or when
+// none is).
+func (w *World) ssaSitesForHost(sites []ssa.CallInstruction) []ssa.CallInstruction {
+	if w.curHost == "" || len(sites) < 2 {
+		return sites
+	}
+	var out []ssa.CallInstruction
+	for _, c := range sites {
+		if w.inHostRegion(fnReal(namedOf(c.Parent()))) {
+			out = append(out, c)
+		}
+	}
+	if len(out) == 0 {
+		return sites
+	}
+	return out
 }
 
 // sliceResults continues a backward slice in the returned values (all, or result idx) of
